@@ -241,6 +241,10 @@ def check_prolongation(desc):
     if resid > 1e-11:
         _fail(f"nested/{kindname}/{how}", f"coarse {kindname} functions are not in the span of the fine space on {how} (expansion residual {resid:.2e}): "
               "refined grid numbering/orientation is inconsistent")
+    if desc.get("nested_only"):
+        # cheap part only (no operator assembly): the coarse functions are reproduced exactly by the fine space through P
+        return {"nontrivial": True, "labels": ["prolongation_nested", how, kindname, f"levels{desc.get('levels', 1)}", "prolongation_" + seg_label],
+                "measured": {"expansion_residual": resid}}
     fam, op = desc["fam"], desc["op"]
     k = og.wavenumber(desc["k"]) if desc.get("k") is not None else None
     if k is not None:
@@ -312,6 +316,7 @@ def shards(tier, seed=1):
             out.append({"check": "congruence", "fam": fam, "op": op, "tshape": t, "dshape": d, "examples": 30, "budget_s": 150})
         fam, op, kinds = rot([("laplace", "V", ["DP0"]), ("laplace", "W", ["P1"]), ("laplace", "K", ["P1"])], seed, 1)[0]
         out.append({"check": "prolongation", "fam": fam, "op": op, "kinds": kinds, "examples": 4, "budget_s": 240, "light": True})
+        out.append({"check": "prolongation", "fam": "laplace", "op": "V", "kinds": ["DP0", "P1", "RWG"], "examples": 40, "budget_s": 120, "nested_only": True})
     else:
         for fam, op, t, d in _all_combos() + [("sparse", "I", "p0", "p0"), ("sparse", "I", "p1", "p1"), ("sparse", "I", "p0", "p1"),
                                              ("sparse", "I", "p1", "p0"), ("sparse", "I", "snc", "rwg"), ("sparse", "LB", "p1", "p1")]:
@@ -319,6 +324,7 @@ def shards(tier, seed=1):
         for fam, op, kinds in [("laplace", "V", ["DP0"]), ("laplace", "V", ["P1"]), ("laplace", "K", ["P1"]), ("laplace", "W", ["P1"]),
                                ("helmholtz", "V", ["DP0"]), ("helmholtz", "W", ["P1"]), ("maxwell", "E", ["RWG"]), ("maxwell", "M", ["RWG"])]:
             out.append({"check": "prolongation", "fam": fam, "op": op, "kinds": kinds, "examples": 14, "budget_s": 2400})
+        out.append({"check": "prolongation", "fam": "laplace", "op": "V", "kinds": ["DP0", "P1", "RWG"], "examples": 400, "budget_s": 1200, "nested_only": True})
     return out
 
 
@@ -372,6 +378,8 @@ def strategy(spec):
         if how == "refine" and mesh and draw(st.integers(0, 3)) == 0:
             d["levels"] = 2
             d["mesh"]["max_elems"] = 8
+        if spec.get("nested_only"):
+            d["nested_only"] = True
         return d
     return p()
 
